@@ -3,9 +3,11 @@ package main
 import (
 	"bytes"
 	"context"
+	"encoding/json"
 	"fmt"
-	"github.com/cloudwego/dynamicgo/thrift/base"
 	"math"
+
+	"github.com/cloudwego/dynamicgo/thrift/base"
 
 	"github.com/cloudwego/dynamicgo/conv"
 	"github.com/cloudwego/dynamicgo/conv/t2j"
@@ -70,6 +72,42 @@ func sprinkleNonFinite(w *W, v *TVal) {
 	}
 }
 
+// takeRespBaseMember checks and removes the "BaseResp" member of a document converted with the response-base switch off.
+func takeRespBaseMember(parsed interface{}, want *base.BaseResp) string {
+	m, ok := parsed.(map[string]interface{})
+	if !ok {
+		return "$: not an object"
+	}
+	b, ok := m["BaseResp"].(map[string]interface{})
+	if !ok {
+		return fmt.Sprintf("$.BaseResp: the field is present in the message and conv.Options.EnableThriftBase is off, got %#v", m["BaseResp"])
+	}
+	delete(m, "BaseResp")
+	n := 2
+	if s, ok := b["StatusMessage"].(string); !ok || s != want.StatusMessage {
+		return fmt.Sprintf("$.BaseResp.StatusMessage: want %q, got %#v", want.StatusMessage, b["StatusMessage"])
+	}
+	if c, ok := b["StatusCode"].(json.Number); !ok || c.String() != fmt.Sprint(want.StatusCode) {
+		return fmt.Sprintf("$.BaseResp.StatusCode: want %d, got %#v", want.StatusCode, b["StatusCode"])
+	}
+	if want.Extra != nil {
+		n++
+		e, ok := b["Extra"].(map[string]interface{})
+		if !ok || len(e) != len(want.Extra) {
+			return fmt.Sprintf("$.BaseResp.Extra: want %v, got %#v", want.Extra, b["Extra"])
+		}
+		for k, v := range want.Extra {
+			if s, ok := e[k].(string); !ok || s != v {
+				return fmt.Sprintf("$.BaseResp.Extra[%q]: want %q, got %#v", k, v, e[k])
+			}
+		}
+	}
+	if len(b) != n {
+		return fmt.Sprintf("$.BaseResp: %d members, want %d: %v", len(b), n, b)
+	}
+	return ""
+}
+
 func runC03(w *W) {
 	t := w.T
 	resetKnobs()
@@ -101,7 +139,14 @@ func runC03(w *W) {
 		w.Sig("respbase")
 	}
 	desc := parseThrift(w, sch, po)
-	opts := conv.Options{EnableThriftBase: respBase, Int642String: t.Chance(1, 3, "opt.i2s"), ByteAsUint8: t.Chance(1, 3, "opt.u8"), NoBase64Binary: t.Chance(1, 5, "opt.nob64"),
+	// the converter's own switch may be off although the descriptor was parsed with the base and the (shared) context
+	// carries an object: the field is then an ordinary member of the document and the object is left alone
+	convBase := respBase && !t.Chance(1, 4, "opt.respbase.off")
+	if respBase && !convBase {
+		w.Count("worlds_with_response_base_switched_off")
+		w.Sig("respbase-off")
+	}
+	opts := conv.Options{EnableThriftBase: convBase, Int642String: t.Chance(1, 3, "opt.i2s"), ByteAsUint8: t.Chance(1, 3, "opt.u8"), NoBase64Binary: t.Chance(1, 5, "opt.nob64"),
 		DisallowUnknownField: t.Chance(1, 5, "opt.du"), UseNativeSkip: t.Chance(1, 2, "opt.nativeskip"), EnableValueMapping: so.JSConv && t.Chance(2, 3, "opt.vm")}
 	jo := t2jOpts{Int642String: opts.Int642String, ByteAsUint8: opts.ByteAsUint8, NoBase64: opts.NoBase64Binary, ValueMapping: opts.EnableValueMapping}
 	cv := t2j.NewBinaryConv(opts)
@@ -173,7 +218,12 @@ func runC03(w *W) {
 			}
 			r := runT2J(w, &cv, desc, src, env, cctx, expLen)
 			w.opFacts = nil
-			if respBase && r.Err == nil && !(nunk > 0 && opts.DisallowUnknownField) {
+			if respBase && !convBase && r.Err == nil {
+				if gotBase.StatusMessage != "" || gotBase.StatusCode != 0 || gotBase.Extra != nil {
+					w.Failf("response-base-touched", facts, "conv.Options.EnableThriftBase is off but the object in the context was written: %+v (env %s)", *gotBase, env)
+				}
+			}
+			if convBase && r.Err == nil && !(nunk > 0 && opts.DisallowUnknownField) {
 				if gotBase.StatusMessage != wantBase.StatusMessage || gotBase.StatusCode != wantBase.StatusCode || len(gotBase.Extra) != len(wantBase.Extra) {
 					w.Failf("response-base-wrong", facts, "the response base extracted into the context is %+v, the message holds %+v (env %s)", *gotBase, *wantBase, env)
 				}
@@ -209,6 +259,12 @@ func runC03(w *W) {
 				}
 				if dk := objectKeysDup(r.Out); dk != "" {
 					w.Failf("duplicate-member", facts, "t2j emitted member %q twice: %s", dk, clip(r.Out, 500))
+				}
+				if respBase && !convBase {
+					if d := takeRespBaseMember(parsed, wantBase); d != "" {
+						w.Failf("wrong-json", facts, "output does not denote the message (env %s): %s\njson: %s", env, d, clip(r.Out, 600))
+					}
+					w.Count("response_base_as_member")
 				}
 				if diff := cmpJSON("$", parsed, val, jo, nil); diff != "" {
 					w.Failf("wrong-json", facts, "output does not denote the message (env %s): %s\njson: %s", env, diff, clip(r.Out, 600))
